@@ -4,8 +4,10 @@ package transport
 
 import (
 	"fmt"
+	"github.com/cnotch/ipchub/utils/vhook"
 	"os"
 	"strings"
+	"sync/atomic"
 	"testing"
 	"time"
 
@@ -127,4 +129,54 @@ func TestMulticast(t *testing.T) {
 			"consumers_after_all_left": afterAll})
 		pub.Close()
 	}
+	// (4) the last player leaves and another one joins before the stopped consumer's delivery goroutine has wound up
+	// (McastProxy.tla: Leave, Join, Exit).  The goroutine is held at the hook exit.begin - after it left its loop, before
+	// it calls the proxy's Close - until the new player is playing.  The one who joined must be served: connection open,
+	// proxy consuming.
+	tries := 12
+	if vio.Thorough() {
+		tries = 60
+	}
+	var armed int32
+	parked := make(chan struct{}, 1)
+	release := make(chan struct{})
+	vhook.SetHandler(func(point string, obj interface{}) {
+		if point == "exit.begin" && atomic.CompareAndSwapInt32(&armed, 1, 0) {
+			parked <- struct{}{}
+			select {
+			case <-release:
+			case <-time.After(5 * time.Second):
+			}
+		}
+	})
+	defer vhook.SetHandler(nil)
+	swapped, dropped, handshakes, gated := 0, 0, 0, 0
+	for k := 0; k < tries; k++ {
+		path := fmt.Sprintf("/mc/swap/%d", k)
+		pub := publish(path)
+		p1, ok1 := player(path)
+		release = make(chan struct{})
+		atomic.StoreInt32(&armed, 1)
+		p1.Do("TEARDOWN", "rtsp://"+srv.Addr+path, map[string]string{"Session": p1.Session}, "", 2*time.Second)
+		p1.Close()
+		select {
+		case <-parked:
+			gated++
+		case <-time.After(2 * time.Second):
+			atomic.StoreInt32(&armed, 0)
+		}
+		p2, ok2 := player(path)
+		close(release)
+		if ok1 && ok2 {
+			handshakes++
+			time.Sleep(30 * time.Millisecond)
+			if closedWithin(p2, 150*time.Millisecond) || consumers(path) != 1 {
+				dropped++
+			}
+			swapped++
+		}
+		p2.Close()
+		pub.Close()
+	}
+	out.Put(map[string]interface{}{"t": 4, "e": "mcast-swap", "tries": tries, "handshakes": handshakes, "gated": gated, "joiner_dropped": dropped})
 }
